@@ -43,13 +43,28 @@ func collectOverlay(repo, harnessDir, rtDir string) (map[string]string, []string
 	if err != nil {
 		return nil, nil, err
 	}
-	ents, err := os.ReadDir(rtDir)
+	// rtDir/verifrt/*.go -> internal/verifrt ; rtDir/<sub>/*.go -> internal/verifrt/<sub>
+	subs, err := os.ReadDir(rtDir)
 	if err != nil {
 		return nil, nil, err
 	}
-	for _, e := range ents {
-		if strings.HasSuffix(e.Name(), ".go") {
-			ov[filepath.Join(repo, "internal", "verifrt", e.Name())] = filepath.Join(rtDir, e.Name())
+	for _, sd := range subs {
+		if !sd.IsDir() {
+			continue
+		}
+		ents, err := os.ReadDir(filepath.Join(rtDir, sd.Name()))
+		if err != nil {
+			return nil, nil, err
+		}
+		for _, e := range ents {
+			if !strings.HasSuffix(e.Name(), ".go") {
+				continue
+			}
+			dst := filepath.Join(repo, "internal", "verifrt", sd.Name(), e.Name())
+			if sd.Name() == "verifrt" {
+				dst = filepath.Join(repo, "internal", "verifrt", e.Name())
+			}
+			ov[dst] = filepath.Join(rtDir, sd.Name(), e.Name())
 		}
 	}
 	var ds []string
